@@ -182,7 +182,7 @@ def gen_ntr(rng):
 def gen_cases(ctx):
     rng = ctx.rng
     cases = list(tie_cases())
-    # reported finding candidates (kept separate from the valid stream; first, so that their replay is the plain case)
+    # zero gradient (fixed defect: regression cases) and the known alpha-overflow finding; first, so that their replay is the plain case
     cases.append(dict(op="cg", kind="zero_g", gk="zero", g=[0.0, 0.0], B=[[2.0, 0.0], [0.0, 1.0]], Δ=1.0, ts=1.0, tsr=0.5, tm=INF, mif=1.0, extra=0))
     cases.append(gen_cg(rng, special="zero_g"))
     cases.append(dict(op="cg", kind="tinyPD", gk="overflow", g=[1.0], B=[[2.0 ** -1070]], Δ=1.0, ts=1.0, tsr=0.5, tm=INF, mif=1.0, extra=0))
@@ -250,8 +250,9 @@ def cg_oracle(g, B, Δ, ts, tsr, tm, mif, s, q, calls, tag="cg"):
     if gn == 0:
         if nan_out:
             return ("zero-gradient-nan-step", "g = 0, radius %r > 0: returned step %r value %r (expected the zero step, value 0)" % (Δ, s, q))
-        if norm(s) > Δ * (1 + 1e-12) or q > 0:
-            return ("zero-gradient-bad-step", "g = 0: step %r value %r" % (s, q))
+        # fix 756d57214: the zero step with value 0 (the number of Hessian products is only compared with the model)
+        if any(x != 0 for x in s) or q != 0:
+            return ("zero-gradient-bad-step", "g = 0: step %r value %r (expected the zero step, value 0)" % (s, q))
         return None
     if nan_out:
         gBg = dot(g, matvec(B, g))
@@ -275,7 +276,7 @@ def cg_oracle(g, B, Δ, ts, tsr, tm, mif, s, q, calls, tag="cg"):
     if q > qc + 1e-9 * abs(qc) + 1e-12 * scale:
         return ("cauchy", "model value %r is worse than the Cauchy point value %r" % (q, qc))
     mi = max_iter_of(n, mif)
-    if calls > mi + 2 + 2 or calls < 2:
+    if calls > mi + 2 + 2 or calls < 2:   # g <> 0 here: at least one pass and one eval
         return ("itercap", "%d Hessian products for max_iter = %d" % (calls, mi))
     if sn < Δ * (1 - 1e-9):
         # interior: exactly one eval() -> passes = calls - 1, loop counter at exit i = calls - 2
@@ -359,7 +360,8 @@ def run(ctx):
                         "the harness instantiates it with a dense matrix applied row by row",
                         "max_iter = (index_t) round(n * max_iter_factor) is computed by the check (round half away from zero) and passed to the model as an integer",
                         "NewtonTRDirection: exact-Hessian path only (finite_diff = false); inactive set and forward-backward step from Prox.v (C15)",
-                        "theorems assume g <> 0 (g = 0 gives 0/0 in get_boundaries_intersections at binary64: C11_zero_gradient_nan_refuted)",
+                        "g = 0 takes the early return of fix 756d57214 (theorem C11_zero_gradient_gives_zero_step); a regression to the NaN step is "
+                        "reported as C11:zero-gradient-nan-step",
                         "overflow of alpha = r'r/d'Bd (NaN exit) is outside the real-arithmetic theorems: C11_alpha_overflow_nan_refuted; "
                         "random cases keep |B| within 2^-12..2^12 times O(1) spectra so that it is only hit by the dedicated case"]
     check_properties(ctx)
